@@ -178,3 +178,59 @@ pub proof fn lemma_load_filter<V>(ids: Seq<u64>, m: Map<u64, V>, loaded: Seq<Res
     }
 }
 } // verus!
+
+verus! {
+// ------------------------------------------------------------------ C04: no dilution, no rounding profit (all proved)
+/// LiquidStake never lowers the redemption rate (staked per LST) of the existing holders:
+/// (tn + x) / (tl + m) >= tn / tl, cross-multiplied
+// [C04.stake-no-dilution]
+pub proof fn lemma_stake_no_dilution(tn: nat, tl: nat, x: nat)
+    requires tn > 0, tl > 0,
+    ensures (tn + x) * tl >= tn * (tl + mint_of(tn, tl, x)),
+{
+    let m = mint_of(tn, tl, x);
+    lemma_muldiv_floor(tl, x, tn);
+    assert((tn + x) * tl >= tn * (tl + m)) by (nonlinear_arith) requires m * tn <= tl * x;
+}
+/// SubmitBatch never lowers the redemption rate of the holders that remain:
+/// (tn - u) / (tl - b) >= tn / tl, cross-multiplied
+// [C04.submit-no-dilution]
+pub proof fn lemma_submit_no_dilution(tn: nat, tl: nat, b: nat)
+    requires tl > 0, b <= tl,
+    ensures unbond_of(tn, tl, b) <= tn, (tn - unbond_of(tn, tl, b)) * tl >= tn * (tl - b),
+{
+    let u = unbond_of(tn, tl, b);
+    if b > 0 {
+        lemma_muldiv_le(tn, b, tl);
+        lemma_muldiv_floor(tn, b, tl);
+        assert((tn - u) * tl >= tn * (tl - b)) by (nonlinear_arith) requires u * tl <= tn * b, u <= tn, b <= tl;
+    } else {
+        assert((tn - 0) * tl >= tn * (tl - 0)) by (nonlinear_arith);
+    }
+}
+/// staking x and immediately unstaking the minted LST never sets aside more than x
+// [C04.no-rounding-profit]
+pub proof fn lemma_round_trip(tn: nat, tl: nat, x: nat)
+    requires x > 0, tl == 0 ==> tn == 0, tl > 0 ==> tn > 0,
+    ensures ({
+        let m = mint_of(tn, tl, x);
+        m > 0 ==> unbond_of(tn + x, tl + m, m) <= x
+    }),
+{
+    let m = mint_of(tn, tl, x);
+    if m > 0 {
+        let u = unbond_of(tn + x, tl + m, m);
+        lemma_muldiv_floor(tn + x, m, tl + m);
+        if tn == 0 {
+            assert(m == x && tl == 0);
+            assert(u * x <= x * x);
+            assert(u <= x) by (nonlinear_arith) requires u * x <= x * x, x > 0;
+        } else {
+            lemma_muldiv_floor(tl, x, tn);
+            // (tn + x) * m <= x * (tl + m)  because  tn * m <= tl * x
+            assert((tn + x) * m <= x * (tl + m)) by (nonlinear_arith) requires m * tn <= tl * x;
+            assert(u <= x) by (nonlinear_arith) requires u * (tl + m) <= (tn + x) * m, (tn + x) * m <= x * (tl + m), tl + m > 0;
+        }
+    }
+}
+} // verus!
